@@ -530,10 +530,6 @@ func (r *Cache) Delete(ns, key uint64, delFunc func()) bool {
 	r.mu.RLock()
 	defer r.mu.RUnlock()
 	if r.closed {
-		// No 'cache node' exists any more: the deletion is not dropped.
-		if delFunc != nil {
-			delFunc()
-		}
 		return false
 	}
 
